@@ -283,15 +283,15 @@ def run(ctx):
     for fl in flavours(ctx):
         ctx.unit = fl
         ctx.doc('C20.6', 'native API forwarding: each public entry point of this property reaches the implementation of the same name with its parameters in order and returns its result (sibling slips such as trylock -> lock, signal -> broadcast, swapped arguments)')
-        lib.native_forwarding(ctx, 'C20.6', fl, lambda n: n in ('myth_sleep', 'myth_usleep', 'myth_nanosleep', 'myth_mutex_timedlock', 'myth_timedjoin'), floor=8)
-        rule5_clock(ctx, fl)
+        ctx.attempt(lib.native_forwarding, ctx, 'C20.6', fl, lambda n: n in ('myth_sleep', 'myth_usleep', 'myth_nanosleep', 'myth_mutex_timedlock', 'myth_timedjoin'), floor=8)
+        ctx.attempt(rule5_clock, ctx, fl)
         v = ctx.view(NATIVE, roots=['myth_nanosleep_body', 'myth_timespec_gt', 'myth_timespec_add', 'myth_mutex_timedlock_body',
                                     'myth_timedjoin_body', 'myth_usleep_body', 'myth_sleep_body'],
                      stops=('hr_gettime', 'myth_yield_body', 'myth_yield_ex_body', 'myth_mutex_trylock_body', 'myth_tryjoin_body'), flavour=fl)
-        rule1_einval(ctx, v)
-        rule2_arith(ctx, v)
-        rule3_noearly(ctx, v)
-        rule4_conv(ctx, v)
+        ctx.attempt(rule1_einval, ctx, v)
+        ctx.attempt(rule2_arith, ctx, v)
+        ctx.attempt(rule3_noearly, ctx, v)
+        ctx.attempt(rule4_conv, ctx, v)
 
 
 SCHED = 'src/myth_sched_func.h'
